@@ -127,7 +127,7 @@ inductive MutK
   | dirRewind | sockListen | sockConnectRefused | sockClose | sockIoClosed
   | semOwn | shmOwn | shmbufOwn
   | tlsSet | tlsReplace | tlsGet
-  | mmapFree | loaderSym
+  | mmapFree | loaderSym | strRealloc
   deriving Repr
 
 inductive DeriveK
@@ -161,7 +161,7 @@ inductive Call
   | connect (d srv : Nat) (e : Option Nat)
   | dtor (ty : Ty) (d : Nat)
   | glob (k : GlobK) (e : Option Nat)
-  | threadRun (d : Nat) (body : Bool) (key : Option Nat)
+  | threadRun (d : Nat) (o : ThrOpt) (key : Option Nat)
   | lockCycle (d : Nat)
   deriving Repr
 
@@ -236,7 +236,10 @@ def mutRun (k : MutK) (o : Obj) (e : EP) : Option (ResM (Char × Option Obj × E
   | .tlsSet, .tls t => some do let (c, t') ← tlsSet t; return (c, some (.tls t'), e)
   | .tlsReplace, .tls t => some do let (c, t') ← tlsReplace t; return (c, some (.tls t'), e)
   | .tlsGet, .tls t => some do let t' ← tlsGet t; return ('S', some (.tls t'), e)
-  | .mmapFree, .mmap i len => some do munmap i len len; return ('S', none, e)
+  | .mmapFree, .mmap i len => some do
+    let (ok, e') ← mmapUnmap i len e
+    return (if ok then 'S' else 'F', if ok then none else some (.mmap i len), e')
+  | .strRealloc, .str b => some do let (c, b') ← strRealloc b; return (c, some (.str b'), e)
   | .loaderSym, .loader l => some do loaderSym; return ('S', some (.loader l), e)
   | _, _ => none
 
@@ -361,7 +364,7 @@ def stepSetErr (env : Env) (e : Option Nat) (viaPointer : Bool) : ResM (Char × 
     let cls := if viaPointer then (match ep, ep' with | some none, some r => errCls r true | _, _ => 'S') else 'F'
     return (cls, env.putEP e ep')
 
-def stepThread (env : Env) (d : Nat) (body : Bool) (key : Option Nat) : ResM (Char × Env) :=
+def stepThread (env : Env) (d : Nat) (body : ThrOpt) (key : Option Nat) : ResM (Char × Env) :=
   if !env.isEmpty d then skip env else
   match key with
   | none => do
@@ -409,6 +412,7 @@ def parseCall (toks : List String) : Option Call :=
   let n := argNat
   match toks with
   | ["lib_init"] => some (.glob .libInit none)
+  | ["lib_init_full"] => some (.glob .libInit none)     -- p_libsys_init_full with the allocator table: the same acquisitions
   | ["lib_shutdown"] => some (.glob .libShutdown none)
   | ["cur_thread"] => some (.glob .curThread none)
   | ["sysfail", nm] => some (.glob (.sysfail nm) none)
@@ -419,6 +423,7 @@ def parseCall (toks : List String) : Option Call :=
   | ["strdup", d] => do some (.ctor .strdup (← n d) none)
   | ["strchomp", d, _] => do some (.ctor .strdup (← n d) none)
   | ["strtok", d] => do some (.mut .nop .str (← n d) none)
+  | ["str_realloc", d] => do some (.mut .strRealloc .str (← n d) none)
   | ["str_free", d] => do some (.dtor .str (← n d))
   | ["list_new", d] => do some (.ctor .listNew (← n d) none)
   | ["list_append", d, x] => do some (.mut (.listAdd (← n x) false) .list (← n d) none)
@@ -470,9 +475,11 @@ def parseCall (toks : List String) : Option Call :=
   | ["dirent_free", d] => do some (.dtor .dirent (← n d))
   | ["dir_free", d] => do some (.dtor .dir (← n d))
   | ["sa_new", d, k] => do some (.ctor (.saNew ((← n k) ≥ 2)) (← n d) none)
-  | ["sa_any", d, _] => do some (.ctor (.saNew false) (← n d) none)
-  | ["sa_loop", d, _] => do some (.ctor (.saNew false) (← n d) none)
+  | ["sa_any", d, f] => do some (.ctor (.saNew ((← n f) ≥ 2)) (← n d) none)     -- family 2: not supported, the block is released again
+  | ["sa_loop", d, f] => do some (.ctor (.saNew ((← n f) ≥ 2)) (← n d) none)
   | ["sa_native", d] => do some (.ctor (.saNew false) (← n d) none)
+  -- 0 IPv4, 1 IPv4 with a short length, 2 IPv6, 3 IPv6 with a short length, 4 an unsupported family
+  | ["sa_native", d, k] => do let k ← n k; if k > 4 then none else some (.ctor (.saNew (k = 1 ∨ k = 3 ∨ k = 4)) (← n d) none)
   | ["sa_addr", s, d] => do some (.derive .saAddr (← n s) (← n d) none)
   | ["sa_free", d] => do some (.dtor .saddr (← n d))
   | ["sock_new", d, k, e] => do some (.ctor (.sockNew (if (← n k) = 0 then 0 else 1)) (← n d) (← argOpt e))
@@ -485,6 +492,8 @@ def parseCall (toks : List String) : Option Call :=
   | ["sock_remote", s, d, e] => do some (.derive .sockRemote (← n s) (← n d) (← argOpt e))
   | ["sock_udp_echo", s, d, e] => do some (.derive .sockUdpEcho (← n s) (← n d) (← argOpt e))
   | ["sock_io_closed", d, w, e] => do if (← n w) > 6 then none else some (.mut .sockIoClosed .sock (← n d) (← argOpt e))
+  -- a public entry point called with invalid arguments (NULL object, bad descriptor, zero length …): only an error is reported
+  | ["inval", w, e] => do if (← n w) > 36 then none else some (.glob .fileRemoveMissing (← argOpt e))
   | ["dir_create_missing", e] => do some (.glob .fileRemoveMissing (← argOpt e))
   | ["dir_remove_missing", e] => do some (.glob .fileRemoveMissing (← argOpt e))
   | ["sock_shutdown", d] => do some (.mut .nop .sock (← n d) none)   -- p_socket_shutdown (both directions): no resource changes hands
@@ -519,7 +528,8 @@ def parseCall (toks : List String) : Option Call :=
   | ["prof_free", d] => do some (.dtor (.one .prof) (← n d))
   | ["rwlockg_new", d] => do some (.ctor .rwgNew (← n d) none)
   | ["rwlockg_free", d] => do some (.dtor .rwg (← n d))
-  | ["thread_run", d, _, body, k] => do some (.threadRun (← n d) ((← n body) ≥ 1) (← argOpt k))
+  | ["thread_run", d, _, body, k] => do some (.threadRun (← n d) ⟨(← n body) ≥ 1, false⟩ (← argOpt k))   -- body 2: the thread leaves through p_uthread_exit
+  | ["thread_run_long", d, _, body, k] => do some (.threadRun (← n d) ⟨(← n body) ≥ 1, true⟩ (← argOpt k))
   | ["thread_unref", d] => do some (.dtor .thread (← n d))
   | ["tls_new", d] => do some (.ctor .tlsNew (← n d) none)
   | ["tls_set", d] => do some (.mut .tlsSet .tls (← n d) none)
@@ -532,6 +542,7 @@ def parseCall (toks : List String) : Option Call :=
   | ["loader_free", d] => do some (.dtor .loader (← n d))
   | ["mmap_new", d, sz, e] => do some (.ctor (.mmapNew (((← n sz) + 1) * 4096)) (← n d) (← argOpt e))
   | ["mmap_free", d] => do some (.dtor .mmap (← n d))
+  | ["mmap_unmap", d, e] => do some (.mut .mmapFree .mmap (← n d) (← argOpt e))    -- p_mem_munmap with an error argument (it can fail)
   | ["lock_cycle", d] => do some (.lockCycle (← n d))
   | _ => none
 
